@@ -193,6 +193,46 @@ let writers_case (mode : string) (d : string) (mstart : string) (mlen : string) 
     "ok:" ^ S.concat "|" (L.map wfiles per)
   with Wclass c -> c
 
+(* ---- the decoded-level sync theorems on the files the built tool was run on (W lines) ----
+   C11Spec.ref_sync_hyps (extracted) = the hypotheses of C11_segmenter_segments_start_sync_applies (modes single / mux:
+   lz = false) resp. C11_segmenter_lazy_segments_start_sync_applies (lazy / muxlazy: lz = true), evaluated on the tables
+   DecodeFile saw.  When they hold and the tool wrote, the OBSERVED files of the reference track (what the Go reader got
+   from the tool's output) must each start with a sample whose flags have bit 16 (sample_is_non_sync_sample) clear; for
+   the single-track writers (the theorems' subject) no written file may be empty.  The multiplexed modes are evaluated
+   the same way (explored, not proved).  Returns (mismatch, tag for the OK line). *)
+let first_sample_sync (file : string) : bool =
+  match split_on ',' file with
+  | s :: _ -> (match split_on '.' s with
+      | [_; _; _; _; fl; _] -> (int_of_string fl) land 65536 = 0
+      | _ -> false)
+  | [] -> false
+
+let sync_case (mode : string) (d : string) (mstart : string) (mlen : string) (file : string) (tracks : string)
+    (obs : string) : string option * string =
+  let trs = L.map (fun t -> match split_on '/' t with
+      | [k; ts; f0; f1; f2; f3; f4; f5; f6] ->
+        (((k = "v"), n_of_bigdec ts), fetch_tables [| f0; f1; f2; f3; f4; f5; f6 |])
+      | _ -> failwith "bad W track") (split_on '|' tracks) in
+  let lz = (mode = "lazy" || mode = "muxlazy") in
+  let mux = (mode = "mux" || mode = "muxlazy") in
+  let pf = { C11FetchModel.pf_bytes = bytes_of_hex file; pf_mdat_start = n_of_bigdec mstart;
+             pf_mdat_len = n_of_bigdec mlen; pf_lazy = lz } in
+  let rec first_video i = function
+    | [] -> -1
+    | ((v, _), _) :: r -> if v then i else first_video (i + 1) r in
+  let k = first_video 0 trs in
+  if k < 0 || not (C11Spec.ref_sync_hyps lz pf trs (nat_of_int k) (n_of_bigdec d)) then (None, "")
+  else if S.length obs < 3 || S.sub obs 0 3 <> "ok:" then (None, " synchyp=" ^ mode ^ ":tool-refused")
+  else
+    let per = split_on '|' (S.sub obs 3 (S.length obs - 3)) in
+    let files = match L.nth_opt per k with
+      | None | Some "-" -> []
+      | Some t -> split_on '+' t in
+    let bad = L.exists (fun fl -> if fl = "e" then not mux else not (first_sample_sync fl)) files in
+    if files = [] || bad then
+      (Some ("theorem-instance: ref_sync_hyps hold for the reference track but a written file of it does not start with a sync sample (mode " ^ mode ^ ")"), "")
+    else (None, " synchyp=" ^ mode)
+
 (* ---- decoded output of Resegment / Fragmentify (V / Y lines) ---- *)
 let parse_data_sample (x : string) : fsample =
   match split_on ':' x with
@@ -440,8 +480,11 @@ let () =
         else Printf.printf "MISMATCH %s combine model=%s\n" id m
       | ["W"; id; mode; d; mstart; mlen; file; tracks; obs] ->
         let m = writers_case mode d mstart mlen file tracks in
-        if m = obs then Printf.printf "OK %s\n" id
-        else Printf.printf "MISMATCH %s segmenter-writers(%s) model=%s\n" id mode (if S.length m > 600 then S.sub m 0 600 else m)
+        if m <> obs then
+          Printf.printf "MISMATCH %s segmenter-writers(%s) model=%s\n" id mode (if S.length m > 600 then S.sub m 0 600 else m)
+        else (match sync_case mode d mstart mlen file tracks obs with
+            | (Some msg, _) -> Printf.printf "MISMATCH %s %s\n" id msg
+            | (None, tag) -> Printf.printf "OK %s%s\n" id tag)
       | ["V"; id; d; tid; samples; obs] ->
         let m = pieces_string (n_of_dec tid) (resegment (n_of_bigdec d) (parse_data_samples samples)) in
         if m = obs then Printf.printf "OK %s\n" id
